@@ -322,6 +322,50 @@ GROUPS["cnf_parser_t2"] = dict(_MODEL, **{
     ],
 })
 
+_AIGER_TOKEN_SPECS = [
+    ("unexpected", "input, expected", "", None), ("fixed", "input, fixed", "", None),
+    ("fixed_not_eol", "input, fixed", "", None), ("space", "input", "", None),
+    ("required_space", "input", "", None), ("newline", "input", "", None),
+    ("required_newline", "input", "", None), ("required_newline_or_space", "input", "", None),
+    ("header_field", "input, name, limit, hard_limit", "", None), ("lit", "input, name, limit, assigning", "", None),
+    ("symbol_index", "input, name, limit", "", None), ("delta_code", "input, code, target, reference", "", None),
+    ("remaining_line_content", "input", "", None), ("remaining_file_content", "input", "", None),
+    ("eof", "input", "", None), ("invalid_initialization", "input", "", None),
+]
+
+def _aiger_t2(kind, make_parser):
+    return dict(_MODEL, **{
+        "name": "aiger_%s_t2" % kind,
+        "package": "flussab-aiger",
+        "prefix": "%s::verif_%s::" % (kind, kind),
+        "overlay": [("flussab-aiger/src/token.rs", "stub", "harness/aiger/token_stub.rs"),
+                    ("flussab-aiger/src/%s.rs" % kind, kind, "harness/aiger/parser_t2.rs")],
+        "inject": _stub_injects("flussab-aiger/src/token.rs", _AIGER_TOKEN_SPECS),
+        "append_text": _MODEL["append_text"] + [("flussab-aiger/src/%s.rs" % kind, make_parser)],
+        "params": {"quick": {"N": 2}, "thorough": {"N": 2}},
+        "flags": ["--default-unwind", "10"],
+        "rss_gb": 16,
+        "timeout": {"quick": 1200, "thorough": 3600},
+        "harnesses": [
+            ("header_parse_u8", {"props": ["C06", "C05", "C03", "C09"], "cost": 5, "what": "%s Header::parse::<u8>: M <= (MAX_CODE-1)/2, I+L+A <= M, field order, which limit applies to which field" % kind}),
+            ("header_parse_u64", {"props": ["C06", "C05", "C03"], "cost": 5, "what": "%s Header::parse::<u64>" % kind}),
+            ("new_u8", {"props": ["C05", "C06"], "cost": 5, "what": "%s Parser::new::<u8>: no overflow for any header" % kind}),
+            ("new_u64", {"props": ["C05", "C06"], "cost": 5, "what": "%s Parser::new::<u64>: no overflow for any header" % kind}),
+            ("next_symbol_u8", {"props": ["C06", "C05", "C03", "C09"], "cost": 6, "what": "%s next_symbol: index limit is the section's own count - 1; no underflow" % kind}),
+            ("next_symbol_u64", {"props": ["C05"], "cost": 6, "tiers": T, "what": "%s next_symbol::<u64>" % kind}),
+            ("reach_aiger_parser", {"kind": "reach", "cost": 4, "what": "vacuity twin"}),
+        ],
+    })
+
+GROUPS["aiger_ascii_t2"] = _aiger_t2("ascii", """#[cfg(kani)]
+fn verif_make_parser<L: Lit>(reader: LineReader<'static>, header: Header) -> Parser<'static, L> {
+    Parser { reader, max_lit: header.max_var_index * 2 + 1, header, _lit_builder: std::marker::PhantomData }
+}""")
+GROUPS["aiger_binary_t2"] = _aiger_t2("binary", """#[cfg(kani)]
+fn verif_make_parser<L: Lit>(reader: LineReader<'static>, header: Header) -> Parser<'static, L> {
+    Parser { reader, max_lit: header.max_var_index * 2 + 1, code: (header.input_count + 1).wrapping_mul(2), header, _lit_builder: std::marker::PhantomData }
+}""")
+
 GROUPS["parser_c15"] = {
     "name": "parser_c15",
     "package": "flussab",
